@@ -147,6 +147,15 @@ type evidence struct {
 }
 
 func main() {
+	// type aliases (type taskState = string) are names for the same type: keep go/types from materialising them as
+	// separate Alias nodes, so that every type test and printed signature sees through them
+	if !strings.Contains(os.Getenv("GODEBUG"), "gotypesalias") {
+		gd := os.Getenv("GODEBUG")
+		if gd != "" {
+			gd += ","
+		}
+		os.Setenv("GODEBUG", gd+"gotypesalias=0")
+	}
 	prop := flag.String("property", "", "property id (C01..C20) or 'all'")
 	tier := flag.String("tier", "quick", "quick|thorough")
 	repo := flag.String("repo", "/repo", "tree to analyse")
